@@ -51,10 +51,28 @@ func pick(tier string, quick, thorough int) int {
 	return quick
 }
 
+// Accepts holds the accept function of every wx-based check (for ad-hoc exploration).
+var Accepts = map[string]func(f *wx.Failure, lastKind string) bool{}
+
 func wxCheck(prop string, quickS, thoroughS int, jobs func(tier string) []runner.Job, accept acceptFn) {
+	Accepts[prop] = accept
 	// make sure every scenario is registered for replay, for both tiers
-	jobs("quick")
-	jobs("thorough")
+	for _, tier := range []string{"quick", "thorough"} {
+		for _, j := range jobs(tier) {
+			var c *sim.Cfg
+			switch x := j.Sc.(type) {
+			case *sim.Cfg:
+				c = x
+			case *sim.PairCfg:
+				c = x.Base
+			case *sim.SubCfg:
+				c = x.Base
+			}
+			if c != nil && c.Prefer == nil {
+				c.Prefer = func(f *wx.Failure) bool { return accept(f, "") }
+			}
+		}
+	}
 	Checks[prop] = func(rp *runner.Report) int {
 		rp.RunJobs(jobs(rp.Tier), runner.Budget(rp.Tier, quickS, thoroughS), accept)
 		return rp.Finish("model_checking", wxAssumptions, map[string]interface{}{
@@ -114,7 +132,7 @@ func init() {
 			job(sc(sim.LogicCfg("c03-logic-k3-iter", 3, fMove|fReg, oDeep).P("C03")), pick(tier, 4, 6), 2),
 			job(sc(sim.RelCfg("c03-rel-k4-any-reg-life", 0, 4, 0, 8, fBld|fMove|fReg, oBasic).P("C03")), pick(tier, 7, 9), 3),
 			job(sc(sim.RelCfg("c03-rel-k4-batchq", 0, 4, 0, 8, fBld|fBSet|fBExch|fBNew|fQ, oBasic).P("C03")), pick(tier, 5, 7), 3),
-			job(sc(sim.CoreCfg("c03-core-k4-batchq", 4, 1, nil, fMove|fBExch|fBNew|fQ, oBasic).P("C03")), pick(tier, 5, 6), 2),
+			job(sc(sim.CoreCfg("c03-core-k4-batchq", 4, 1, nil, fMove|fBExch|fBNew|fQ, oBasic).P("C03")), pick(tier, 4, 6), 2),
 		}
 	}, func(f *wx.Failure, _ string) bool {
 		if f.Prop == "" || f.Prop == "C03" || f.Prop == "C09" {
@@ -149,10 +167,11 @@ func init() {
 			job(sc(sim.RelCfg("c06-rel-k4-any-batch", 0, 4, 0, 8, fBld|fRet|fBRem|fBSet, oBasic).P("C06")), pick(tier, 6, 8), 3),
 			job(sc(sim.RelCfg("c06-rel-k4-any-reset", 0, 4, 0, 8, fBld|fMove|fReset|fBRem, oBasic).P("C06")), pick(tier, 6, 8), 2),
 			job(sc(sim.RelCfg("c06-rel-k5-2p-life", 0, 5, 2, 8, fBld|fMove|fRet|fBRem, oBasic).P("C06")), pick(tier, 7, 10), 3),
-			job(sc(sim.RelCfg("c06-rel-k4-any-val", 0, 4, 0, 1, fBld|fRet|fVal|fBNew, oBasic).P("C06")), pick(tier, 5, 7), 2),
+			job(sc(sim.RelCfg("c06-rel-k3-any-val", 0, 3, 0, 1, fBld|fRet|fVal|fBNew, oBasic).P("C06")), pick(tier, 5, 7), 2),
 			job(sc(sim.Rel2Cfg("c06-rel2-k4-any-life", 4, 0, 8, fBld|fRel|fRet, oBasic).P("C06")), pick(tier, 5, 7), 2),
+			job(sc(sim.RelCfg("c06-rel-k4-any-reg-life", 0, 4, 0, 8, fBld|fMove|fReg, oBasic).P("C06")), pick(tier, 6, 8), 2),
 		}
-	}, func(f *wx.Failure, _ string) bool { return f.Prop != "C07" && f.Prop != "C03" })
+	}, func(f *wx.Failure, _ string) bool { return true })
 
 	// ------------------------------------------------------------------ C07 filter caching
 	wxCheck("C07", 90, 900, func(tier string) []runner.Job {
